@@ -131,6 +131,7 @@ inductive Pieces (root : Mapping) (st : RState) : Nat → List Token → List St
       pieceText n root t st = .ok x → Pieces root st n ts xs →
       Pieces root st (n+1) (t :: ts) (x :: xs)
 
+/-- One text per piece. -/
 theorem Pieces.length_eq {root : Mapping} {st : RState} {n : Nat} {ts : List Token}
     {xs : List Str} (h : Pieces root st n ts xs) : xs.length = ts.length := by
   induction h with
@@ -260,6 +261,18 @@ theorem combined_renders_literal' {n : Nat} {root : Mapping} {ts : List Token} {
       simp only [h1, Except.ok.injEq, Prod.mk.injEq] at h
       exact ⟨s, h.1.symm, h.2.symm, by simpa using h1⟩
 
+/-- **Headline.** A string that parses to several pieces (text and references mixed) renders to
+the literal string made of the concatenated piece texts (`slice_eq_concat` says what these
+are); the resolve state of the caller is unchanged; a failing piece fails the render. -/
+theorem mixed_string_renders_concat (n : Nat) (root : Mapping) (s : Str) (ts : List Token)
+    (st : RState) (hp : Token.parse s = .ok (some (.combined ts))) :
+    interp (n+3) root (.str s) st =
+      match slice n root ts st with
+      | .error e => .error e
+      | .ok t => .ok (.lit t, st) := by
+  simp only [interp, hp]
+  exact combined_renders_literal n root ts st
+
 /-- A string without any reference marker renders to itself. -/
 theorem plain_string_renders_itself (n : Nat) (root : Mapping) (s : Str) (st : RState)
     (h : Token.parse s = .ok none) : interp (n+1) root (.str s) st = .ok (.lit s, st) := by
@@ -364,6 +377,11 @@ example : renderJson 80
       (.str "s".toList, .str "<${m}>".toList)], [], []⟩ =
     some "{\"a\":7,\"m\":{\"b\":1,\"z\":7},\"s\":\"<{\\\"b\\\":1,\\\"z\\\":7}>\"}".toList := by
   decide +kernel
+
+/-- The hypothesis of `mixed_string_renders_concat` is satisfiable: `x${l}` parses to a literal
+piece followed by a reference piece. -/
+example : Token.parse "x${l}".toList =
+    .ok (some (.combined [.lit "x".toList, .ref [.lit "l".toList]])) := by rfl
 
 /-- The `Pieces` relation is inhabited: two literal pieces. -/
 example : Pieces {} {} 3 [.lit "ab".toList, .lit "c".toList] ["ab".toList, "c".toList] :=
